@@ -589,7 +589,9 @@ func ruleC06FinalPattern(c *Checker) {
 		out := map[string]string{}
 		for _, ci := range callsIn(fn) {
 			g := ci.Common().StaticCallee()
-			if g == nil || !p.InModule(g) || len(ci.Common().Args) != 1 {
+			// a module function, or the registry address parser itself where the one-line predicate
+			// around it has been written out
+			if g == nil || !(p.InModule(g) || isRegistryAddrParser(calleeObj(ci))) || len(ci.Common().Args) != 1 {
 				continue
 			}
 			idx := map[int64]bool{}
@@ -908,4 +910,10 @@ func ruleC06CanonURL(c *Checker) {
 		}
 	}
 	c.check(n > 0, R, "-", "construction sites", "-", fmt.Sprintf("%d", n), "RemotePackage.url is never stored")
+}
+
+// isRegistryAddrParser: terraform-registry-address.ParseModuleSource, the parser the "looks like a registry
+// source" predicates are defined by.
+func isRegistryAddrParser(o *types.Func) bool {
+	return o != nil && o.Name() == "ParseModuleSource" && o.Pkg() != nil && strings.HasSuffix(o.Pkg().Path(), "terraform-registry-address")
 }
